@@ -165,11 +165,13 @@ def run_txn(case: dict) -> Result:
         if exhausted:
             res.inconclusive = "serial-order search budget exhausted"
         elif found is None:
+            shape, first = _serial_shape(committed, initial)
             res.add(
                 "no-serial-order-explains-reads",
                 "TransactionManager",
-                f"store-{engine}-{_serial_shape(committed, initial)}",
-                f"{len(committed)} committed transactions ({len(ser)} SERIALIZABLE); no permutation explains their reads",
+                f"store-{engine}-{shape}",
+                f"{len(committed)} committed transactions ({len(ser)} SERIALIZABLE); no serial order explains their reads; "
+                f"first disagreement in commit order: {first}",
                 {"committed": committed},
             )
 
@@ -189,7 +191,7 @@ def run_txn(case: dict) -> Result:
         res.add(
             "si-reads-not-from-one-snapshot",
             "TransactionManager",
-            f"store-{engine}-{_si_shape(t, ext, committed)}",
+            _si_shape(t, ext, committed, engine),
             f"SI transaction {t['id']} (client {t['c']}) read {[(o[1], o[2]) for o in ext]}: no committed state S_0..S_{len(order)} has all these values",
             {"txn": t, "commit_order": order, "states": states},
         )
@@ -208,7 +210,7 @@ def run_txn(case: dict) -> Result:
     return res
 
 
-def _si_shape(t: dict, ext: list, committed: list[dict]) -> str:
+def _si_shape(t: dict, ext: list, committed: list[dict], engine: str) -> str:
     """Structural precondition: did a foreign commit that wrote one of the keys read fall between the
     transaction's begin and the end of its last external read?"""
     last_end = max(o[4] for o in ext)
@@ -218,10 +220,10 @@ def _si_shape(t: dict, ext: list, committed: list[dict]) -> str:
             continue
         if t["begin_s"] < x["commit_s"] < last_end and rkeys & {o[1] for o in x["ops"] if o[0] == "w"}:
             return "foreign-commit-to-read-key-between-begin-and-last-read"
-    return "no-foreign-commit-during-reads"
+    return f"no-foreign-commit-during-reads-store-{engine}"
 
 
-def _serial_shape(committed: list[dict], initial: dict) -> str:
+def _serial_shape(committed: list[dict], initial: dict) -> tuple[str, str]:
     """In commit order, locate the first SERIALIZABLE read that disagrees and say how."""
     state = dict(initial)
     writer_commit = {}  # value -> commit_s of its writer
@@ -233,12 +235,13 @@ def _serial_shape(committed: list[dict], initial: dict) -> str:
             elif t["iso"] == "ser":
                 exp = own[o[1]] if o[1] in own else state.get(o[1])
                 if exp != o[2]:
+                    first = f"transaction {t['id']} (client {t['c']}) read {o[1]!r} = {o[2]!r}, committed state had {exp!r}"
                     if o[2] is None or o[2] in initial.values() or writer_commit.get(o[2], 10**18) < t["begin_s"]:
-                        return "read-older-than-state-at-begin"
+                        return "read-older-than-state-at-begin", first
                     if o[2] in writer_commit:
-                        return "read-saw-commit-after-begin"
-                    return "read-saw-later-or-unknown-value"
+                        return "read-saw-commit-after-begin", first
+                    return "read-saw-later-or-unknown-value", first
         for k, v in own.items():
             state[k] = v
             writer_commit[v] = t["commit_s"]
-    return "commit-order-explains-but-search-failed"
+    return "commit-order-explains-but-search-failed", "-"
